@@ -462,6 +462,47 @@ def rule_o3(ctx):
         raise AnalysisBroken("only %d releases of message cells found in the protocols" % n)
 
 
+# ---------------------------------------------------------------------------
+# O11: a message moved from one aio to another leaves the first
+
+
+def rule_o11(ctx):
+    r = ctx.rule("C03.O11", "T2", "a message moved from one aio to another leaves the first: after nni_aio_set_msg(A, nni_aio_get_msg(B)) every "
+                 "path to the function's exit passes nni_aio_set_msg(B, NULL) -- with the message left on both, a failed or "
+                 "cancelled transfer is released by the completion path of A and again by the owner of B (double free), or B's "
+                 "owner reads a message the transport has already let go", floor=4)
+    prog = ctx.prog
+    n = 0
+    for f in prog.functions:
+        if f.cfg_failed or f.file.endswith("_test.c"):
+            continue
+        for c in f.calls("nni_aio_set_msg"):
+            a = c.node["args"]
+            if len(a) < 2 or a[1] is None:
+                continue
+            src = f.expand(a[1])
+            while src is not None and src.get("k") == "cast":
+                src = src["e"]
+            if src is None or src.get("k") != "call" or src.get("fn") != "nni_aio_get_msg" or not src.get("args"):
+                continue
+            A, B = show(f.expand(a[0])), show(f.expand(src["args"][0]))
+            if A == B:
+                continue
+            n += 1
+            clears = {(x.b, x.i) for x in f.calls("nni_aio_set_msg") if len(x.node["args"]) > 1 and
+                      show(f.expand(x.node["args"][0])) == B and is_null(f.expand(x.node["args"][1]))}
+            off = G.must_pass(f, (c.b, c.i + 1), clears)
+            if off is None:
+                r.ob(f, "message moved from %s to %s (line %s); %s cleared on every way out" % (B, A, c.line, B))
+            else:
+                ctx.fail(r, f, "message left on both aios", c.line,
+                         "%s hands the message of %s to %s (line %s) and can return without nni_aio_set_msg(%s, NULL): both aios "
+                         "carry the same message, and when the transfer fails or is cancelled it is released twice"
+                         % (f.name, B, A, c.line, B))
+    if n < 4:
+        raise AnalysisBroken("only %d message moves between aios found" % n)
+
+
 def run(ctx):
     ctx.guard(rule_o1)
     ctx.guard(rule_o4)
@@ -469,6 +510,7 @@ def run(ctx):
     ctx.guard(rule_o8)
     ctx.guard(rule_o9)
     ctx.guard(rule_o3)
+    ctx.guard(rule_o11)
     from . import c18
     ctx.guard(c18.rule_r11)      # sized free of the msgq ring: the recorded extent belongs to the storage
     for rr in ctx.rules:
